@@ -102,9 +102,18 @@ func runBytes(op string) (out string) {
 	var mu sync.Mutex
 	got := map[int16]*fakecass.Request{}
 	respMsgs := map[int16]message.Message{}
+	var held []*fakecass.Request
+	holding := false
 	env.Cluster.Handler = func(rq *fakecass.Request) fakecass.Response {
 		mu.Lock()
 		defer mu.Unlock()
+		if holding {
+			held = append(held, rq)
+			if len(held) <= 2 {
+				return fakecass.Response{Kind: fakecass.RespSilent}
+			}
+			return fakecass.Response{Kind: fakecass.RespMsg, Msg: &message.VoidResult{}}
+		}
 		got[rq.Header.StreamId] = rq // backend stream ids are unique per in-flight request; requests are sequential here
 		got[-1] = rq
 		rr := rng.New(uint64(seed)*7919 + uint64(len(got)))
@@ -312,6 +321,63 @@ func runBytes(op string) (out string) {
 		if rq == nil && err != nil {
 			break // the connection is gone
 		}
+	}
+	// a retried write must carry the bytes of its first attempt, whatever went through the connection in between:
+	// two writes in flight, the first answered with a write timeout of the batch log (retried once on the same host)
+	if len(res) == nreq && nreq > 0 && !strings.Contains(res[len(res)-1], "closed") {
+		mu.Lock()
+		holding = true
+		mu.Unlock()
+		cons := primitive.ConsistencyLevelOne
+		if len(unsupported) > 0 {
+			cons = primitive.ConsistencyLevel(unsupported[0])
+		}
+		w := func(st int16, v string) {
+			_ = cl.Send(st, &message.Query{Query: "INSERT INTO ks.t (k, v) VALUES (1, '" + v + "')", Options: &message.QueryOptions{Consistency: cons}})
+		}
+		waitHeld := func(n int) bool {
+			for i := 0; i < 2000; i++ {
+				mu.Lock()
+				k := len(held)
+				mu.Unlock()
+				if k >= n {
+					return true
+				}
+				time.Sleep(time.Millisecond)
+			}
+			return false
+		}
+		w(501, "first")
+		ok := waitHeld(1)
+		w(502, "the second write, with a longer value than the first one")
+		ok = ok && waitHeld(2)
+		tok := "retry-none"
+		if ok {
+			mu.Lock()
+			h0, h1 := held[0], held[1]
+			mu.Unlock()
+			_ = h0.Conn.Send(h0.Header.Version, h0.Header.StreamId, &message.WriteTimeout{ErrorMessage: "wt", Consistency: primitive.ConsistencyLevelOne, Received: 0, BlockFor: 1, WriteType: primitive.WriteTypeBatchLog})
+			if waitHeld(3) {
+				mu.Lock()
+				h2 := held[2]
+				mu.Unlock()
+				if bytes.Equal(h2.RawBody, h0.RawBody) {
+					tok = "same"
+				} else if bytes.Equal(h2.RawBody, h1.RawBody) {
+					tok = "retry-carries-another-request"
+				} else {
+					tok = "retry-body-differs"
+				}
+			}
+			_ = h1.Conn.Send(h1.Header.Version, h1.Header.StreamId, &message.VoidResult{})
+		}
+		rtok := "same"
+		for i := 0; i < 2; i++ {
+			if _, err := cl.Recv(2 * time.Second); err != nil {
+				rtok = "retry-unanswered"
+			}
+		}
+		res = append(res, tok+"/"+rtok)
 	}
 	return strings.Join(res, " ")
 }
